@@ -130,7 +130,7 @@ func RunBinary(p *Plan, o ExecOpts) (*ExecOut, error) {
 	env := append(goEnv(), "HOME="+tmp)
 	{
 		c := exec.Command("go", "build", "-o", bin, "./cmd/fundraisingd")
-		c.Dir = "/repo"
+		c.Dir = RepoDir()
 		c.Env = goEnv()
 		if out, err := c.CombinedOutput(); err != nil {
 			return nil, fmt.Errorf("building the node binary: %v\n%s", err, out)
@@ -750,4 +750,13 @@ func chainGenesisOps() []Op {
 		{Kind: "place", Signer: "bid1", AID: 0, BidType: 1, Price: "1", Denom: "bcoin", Amt: "4"},
 		{Kind: "block", K: 2},
 	}
+}
+
+// RepoDir is the repository the checks are built against: /repo, or $VERIF_REPO for isolated runs on
+// a scratch copy (seeded/selftest.sh). The registered commands never set it.
+func RepoDir() string {
+	if d := os.Getenv("VERIF_REPO"); d != "" {
+		return d
+	}
+	return "/repo"
 }
